@@ -21,6 +21,11 @@ UNKNOWN_FIELDS = ["ZED", "ALPHA", "EXTRA_1", "Q", "MIDDLE", "OMEGA", "BETA9", "X
 KEYS = ["A", "B", "NAME", "STATUS", "TITLE", "COUNT", "ITEMS", "NOTE", "X_1", "FLAG", "PATH", "OWNER", "RISKS", "TESTS", "CI",
         "DEPS", "DECISIONS", "PATTERN", "REGEX", "ID"]
 WORDS = ["alpha", "Beta", "GAMMA", "delta_1", "x", "ok", "Wind", "Wall", "Door", "fixed", "active", "DRAFT", "v2", "a-b", "p.q"]
+# scalars that are EQUAL under == / hash although they are different values with different text (True == 1 == 1.0 == 1e0,
+# False == 0 == 0.0 == -0.0, 1000 == 1e3): what a memo keyed by the value itself (dict, lru_cache) cannot tell apart — whichever the
+# process saw first answers for the others.  Drawn for ROUTED fields (fields with a target) by gen_eq_scalar_calls, whose calls are
+# appended to the stream from a generator of their own (the first n calls of a seed stay byte-identical).
+EQ_SCALARS = ["true", "1", "1.0", "1e0", "false", "0", "0.0", "-0.0", "1000", "1e3"]
 
 
 def pick(rng, xs):
@@ -291,6 +296,46 @@ def sha(s):
     return hashlib.sha256(s.encode("utf-8")).hexdigest()
 
 
+def gen_eq_scalar_calls(rng, k, inline, first_id):
+    """k calls whose documents give ROUTED fields values drawn from EQ_SCALARS: the packaged DEBATE_TRANSCRIPT schema (SYNTHESIS,
+    MAX_ROUNDS, MAX_TURNS route to §SELF) through octave_validate (content / file) and the Validator API, and the stream's inline
+    schemas (targets of every kind, multi-target overrides) through the API.  One value per call more often than not, so that equal
+    values meet ACROSS calls of one process, in whichever order the configuration's shuffle puts them."""
+    calls = []
+    for j in range(k):
+        c = {"id": first_id + j, "flavour": "eq-scalars"}
+        if rng.random() < .55 or not inline:
+            L = ["===D===", "DEBATE_TRANSCRIPT:", f'  THREAD_ID::{pick(rng, ['"t-1"', "t2"])}', '  TOPIC::"x"', "  MODE::fixed", "  STATUS::active",
+                 "  PARTICIPANTS::[Wind,Wall]", "  TURNS::[a,b]"]
+            fs = rng.sample(["SYNTHESIS", "MAX_ROUNDS", "MAX_TURNS"], pick(rng, [1, 1, 1, 2, 3]))
+            L += [f"  {f}::{pick(rng, EQ_SCALARS)}" for f in fs] + ["===END==="]
+            doc = "\n".join(L) + "\n"
+            r = rng.random()
+            if r < .5:
+                a = {"content": doc, "schema": "DEBATE_TRANSCRIPT"}
+                for flag, p in (("fix", .3), ("compact", .15), ("diff_only", .15)):
+                    if rng.random() < p:
+                        a[flag] = True
+                if rng.random() < .3:
+                    a["profile"] = pick(rng, ["STRICT", "LENIENT"])
+                c.update(tool="validate", args=a)
+            elif r < .7:
+                c["files"] = {"in/doc.oct.md": doc}
+                c.update(tool="validate", args={"file_path": "$SB/in/doc.oct.md", "schema": "DEBATE_TRANSCRIPT"})
+            else:
+                c.update(tool="api", fn="validate_api", args={"content": doc, "schema": "DEBATE_TRANSCRIPT", "strict": rng.random() < .3, "fix": rng.random() < .4})
+        else:
+            st, nm, fs = pick(rng, inline)
+            body = [f"  {f}::{pick(rng, EQ_SCALARS)}" for f in fs if rng.random() < .6] or [f"  {fs[0]}::{pick(rng, EQ_SCALARS)}"]
+            a = {"schema_content": st, "content": "\n".join(["===D===", f"{nm}:"] + body + ["===END==="]) + "\n", "strict": rng.random() < .3,
+                 "fix": rng.random() < .3, "gbnf": False}
+            if rng.random() < .5:
+                a["targets_override"] = {f: pick(rng, ["T_A∨T_B", "T_C∨INDEXER∨T_A∨RISK_LOG", "§T_B∨§T_A∨§T_C∨§SELF∨§META"]) for f in rng.sample(fs, rng.randrange(1, len(fs) + 1))}
+            c.update(tool="api", fn="validate_inline", args=a)
+        calls.append(c)
+    return calls
+
+
 def gen_calls(rng, n, resources=(), frozen=None):
     """n calls.  `resources`: [(name, text)] packaged .oct.md files used as extra documents.
     `frozen`: {"ref": "frozen@sha256:…", "text": …} installed in every HOME's cache."""
@@ -391,4 +436,7 @@ def gen_calls(rng, n, resources=(), frozen=None):
                 a, c["files"] = h["args"], h["files"]
             c.update(tool="api", fn=fn, args=a)
         calls.append(c)
+    # a further family, drawn from a generator of its own AFTER the stream (the n calls above do not depend on it)
+    import random
+    calls += gen_eq_scalar_calls(random.Random(f"eq-scalars-{rng.random()}"), max(10, n // 10), inline, n)
     return calls
